@@ -27,7 +27,7 @@ for pid in sorted(PROPS):
     checks.append(c)
 engines = []
 for name, e in ENGINES.items():
-    engines.append({"name": name, "path": e["dir"], "serves_properties": sorted(p for p in PROPS if PROPS[p]["engine"] == name),
+    engines.append({"name": name, "path": e["dir"], "serves_properties": sorted(p for p in PROPS if PROPS[p]["engine"] == name or any(x.get("engine") == name for x in PROPS[p].get("parts") or [])),
                     "kind_free_text": ENGINE_TEXT.get(name, "")})
 na = [{"property_id": p, "reason": NOT_APPLICABLE.get(p, "check not built yet in this session; see DESIGN.md")} for p in all_ids if p not in PROPS]
 m = {
